@@ -236,7 +236,7 @@ Theorem rest_never_panics : forall fuel s g,
   R (p_tree s) g -> info_valid (p_tree s) -> rok (p_r s) -> p_scopeStack s = [] -> IV s ->
   glive g 0 -> groot g 0 -> is_sb s 0 ->
   tyS NoX (p_tables s) (p_handle s) (p_tree s) g ->
-  TM2 (p_tree s) g -> PEND s g -> typed (p_tree s) ->
+  TM3 (p_tree s) g -> PEND s g -> typed (p_tree s) ->
   lp s + lp s * (8 * r_len (p_r s) + 3) + 4 <= InvalidIndex ->
   match parse_rest fuel s with
   | Ok (_, s') => exists g', R (p_tree s') g' /\ info_valid (p_tree s') /\ pool_ok (p_tables s') (p_tree s')
@@ -246,22 +246,22 @@ Theorem rest_never_panics : forall fuel s g,
 Proof.
   intros fuel s g HR Hi Hrk Hst I0 H0 Hroot Hsb Hty HTM HP Htyp Hcap.
   assert (Hpool : pool_ok (p_tables s) (p_tree s)) by (rewrite (inv_tbls _ _ I0); apply (inv_pool _ _ I0)).
-  assert (HM : MI KS NoX s g).
-  { constructor; auto; [constructor; auto|split; auto]. }
+  assert (HM : MI KS3 NoX s g).
+  { constructor; auto; [constructor; auto|split; [split; [apply TM3_TM2; exact HTM|exact HP]|exact HTM]]. }
   assert (W : wp True (parse_rest fuel) s (fun _ s' => exists g',
             R (p_tree s') g' /\ info_valid (p_tree s') /\ pool_ok (p_tables s') (p_tree s'))).
   { unfold parse_rest.
     apply (wp_bind_inv tbls _ _ _ _ _ I0); [apply hoare_resolve_loop|].
     eapply wp_weaken; [apply (wp_and_pc _ _ _ _ (fun _ s' => (p_r s' = p_r s /\ p_scopeStack s' = p_scopeStack s /\
                                   length (t_pool (p_tree s')) = length (t_pool (p_tree s))) /\ typed (p_tree s'))
-                         (resolve_loop_MI KS KS_counters KS_move KS_free KS_reloc fuel fuel s g HM))|auto|].
+                         (KS3_loop fuel fuel s g HM))|auto|].
     - intros a s' E. split; [apply (resolve_loop_quiet fuel fuel s a s' E)|apply (resolve_loop_tyk fuel fuel s a s' E Htyp)].
-    - intros r3 s1 ((g1 & [[A B C] D E F G (K1 & K2)]) & (Q1 & Q2 & Q3) & Ht1) I1.
+    - intros r3 s1 ((g1 & [[A B C] D E F G ((_ & K2) & K1)]) & (Q1 & Q2 & Q3) & Ht1) I1.
       destruct (pres_eqb r3 ROk); cbn [negb].
       2:{ apply wp_ret. exists g1. auto. }
       pose proof (tail_never_panics_pend fuel fuel fuel fuel s1 g1 A B) as T.
       unfold wp. destruct (parse_tail fuel fuel fuel fuel s1) as [[b s']| |] eqn:Et; auto; apply T; auto;
-        try (rewrite Q1; exact Hrk); try (rewrite Q2, Hst; constructor); try (apply TM2_TM; exact K1);
+        try (rewrite Q1; exact Hrk); try (rewrite Q2, Hst; constructor); try (apply TM3_TM; exact K1);
         try (unfold lp in *; rewrite Q1, Q3; exact Hcap). }
   unfold wp in W. destruct (parse_rest fuel s) as [[b s']| |]; auto.
 Qed.
@@ -297,6 +297,7 @@ Qed.
 
 Variable KI : pstate -> ghost -> Prop.
 Hypothesis KI_KS : forall s g, KI s g -> KS s g.
+Hypothesis KI_TM : forall s g, KI s g -> TM NoX s g.
 Hypothesis KI_loop : forall wf fuel s g, MI KI NoX s g ->
   wp True (resolve_loop fuel wf) s (fun _ s' => exists g', MI KI NoX s' g').
 Hypothesis K_start : forall s g, MI KI NoX s g -> K (p_tree s) g.
@@ -331,7 +332,7 @@ Proof.
       2:{ apply wp_ret. exists g1. split; [exact A|]. split; [exact B|]. split; [exact C|discriminate]. }
       pose proof (tail_post fuel fuel fuel fuel s1 g1 A B) as T.
       unfold wp. destruct (parse_tail fuel fuel fuel fuel s1) as [[b s']| |] eqn:Et; auto; apply T; auto;
-        try (rewrite Q1; exact Hrk); try (rewrite Q2, Hst; constructor); try (apply TM2_TM; exact K1);
+        try (rewrite Q1; exact Hrk); try (rewrite Q2, Hst; constructor); try (apply KI_TM; exact HKI1);
         try (unfold lp in *; rewrite Q1, Q3; exact Hcap). }
   unfold wp in W. destruct (parse_rest fuel s) as [[b s']| |]; auto.
 Qed.
@@ -371,7 +372,7 @@ Lemma dex0_hyps :
   let s := dex0_state in let g := dex_ghost in
     R (p_tree s) g /\ info_valid (p_tree s) /\ rok (p_r s) /\ p_scopeStack s = [] /\ Inv (p_tables s) s /\
     glive g 0 /\ groot g 0 /\ is_sb s 0 /\ tyS NoX (p_tables s) (p_handle s) (p_tree s) g /\
-    TM2 (p_tree s) g /\ PEND s g /\ typed (p_tree s) /\
+    TM3 (p_tree s) g /\ PEND s g /\ typed (p_tree s) /\
     lp s + lp s * (8 * r_len (p_r s) + 3) + 4 <= InvalidIndex.
 Proof.
   cbv zeta. unfold dex0_state.
@@ -387,7 +388,7 @@ Proof.
     intros k o Hk Hop. do 2 (destruct k as [|k]; [vm_compute in Hk; inversion Hk; subst o; vm_compute in Hop; discriminate|]).
     vm_compute in Hk. destruct k; discriminate. }
   split.
-  { unfold TM2. apply (pool_cases dex_tree (fun m mo => o_opcode mo = aml_pOpMethod -> mtyped2 dex_tree dex_ghost m)).
+  { unfold TM3. apply (pool_cases dex_tree (fun m mo => o_opcode mo = aml_pOpMethod -> mtyped3 dex_tree dex_ghost m)).
     intros k o Hk Hop. do 2 (destruct k as [|k]; [vm_compute in Hk; inversion Hk; subst o; vm_compute in Hop; discriminate|]).
     vm_compute in Hk. destruct k; discriminate. }
   split.
@@ -408,7 +409,7 @@ Lemma rest_hyps_example :
   exists (s : pstate) (g : ghost),
     R (p_tree s) g /\ info_valid (p_tree s) /\ rok (p_r s) /\ p_scopeStack s = [] /\ Inv (p_tables s) s /\
     glive g 0 /\ groot g 0 /\ is_sb s 0 /\ tyS NoX (p_tables s) (p_handle s) (p_tree s) g /\
-    TM2 (p_tree s) g /\ PEND s g /\ typed (p_tree s) /\
+    TM3 (p_tree s) g /\ PEND s g /\ typed (p_tree s) /\
     lp s + lp s * (8 * r_len (p_r s) + 3) + 4 <= InvalidIndex /\
     match parse_rest 10 s with Ok (b, s') => b = true /\ lp s' = 4 | _ => False end.
 Proof.
